@@ -133,7 +133,8 @@ def run_reg(c, e, form="record"):
         cred = json.dumps(core.to_reg_json(c))
     kw = {}
     if e.get("algs") is not None:
-        kw["supported_pub_key_algs"] = list(e["algs"])
+        from webauthn.helpers.cose import COSEAlgorithmIdentifier as _A
+        kw["supported_pub_key_algs"] = [(_A(a) if a in _A._value2member_map_ else a) for a in e["algs"]]
     roots = e.get("roots") or {}
 
     def call():
